@@ -2,7 +2,8 @@
     per-step flags agree with the definitions.  Statements only; proofs are in
     Proofs/. Quantification: all boolean vectors of rain / fast-increment flags
     of equal length, hence all loaded datasets and all thresholds. *)
-From Spowtd Require Import Model.Mystery Proofs.RunsSpec Proofs.MysterySpec.
+From Spowtd Require Import Model.Mystery Proofs.RunsSpec Proofs.MysterySpec
+  Generated.MysteryGen Proofs.MysteryGenSpec.
 
 (** The "unexplained rise" flag of sample i is off iff some sample r <= i had
     rain and samples r+1..i are rain-free and end no fast increment. *)
@@ -22,6 +23,30 @@ Theorem C04_interstorm_flag_char : forall jump rain i,
    exists r, r < i /\ nth r rain false = true /\ quiet jump rain r i).
 Proof. exact interstorm_char. Qed.
 Print Assumptions C04_interstorm_flag_char.
+
+(** Tie to the code by TRANSLATION (in addition to the correspondence check):
+    [gen_mask] is regenerated from the Python source of get_mystery_jump_mask on
+    every run (harness/translate.py, fail closed).  It equals the model for all
+    inputs, so the characterisation above is a theorem about the translated
+    code itself; and the function's two closing assertions can never fail. *)
+Theorem C04_translated_code_is_model : forall jump rain,
+  gen_mask jump rain = mystery_from true jump rain.
+Proof. exact generated_is_model. Qed.
+Print Assumptions C04_translated_code_is_model.
+
+Theorem C04_translated_flag_char : forall jump rain i,
+  length jump = length rain -> i < length rain ->
+  (nth i (gen_mask jump rain) true = false <-> dry_since_rain jump rain i).
+Proof. intros jump rain i. rewrite generated_is_model. exact (mystery_char jump rain i). Qed.
+Print Assumptions C04_translated_flag_char.
+
+Theorem C04_translated_assertions_never_fail : forall jump rain,
+  gen_closing_assertions = [1; 2] /\
+  (forall i, i < length (gen_mask jump rain) -> nth i rain false = true -> nth i (gen_mask jump rain) true = false) /\
+  (forall i, i < length (gen_mask jump rain) -> nth i rain true = false -> nth i jump false = true ->
+             nth i (gen_mask jump rain) false = true).
+Proof. exact generated_assertions_never_fail. Qed.
+Print Assumptions C04_translated_assertions_never_fail.
 
 (** Recorded intervals (first sample, last sample) are exactly the maximal runs
     of the interstorm flag with at least two samples: sound and complete. *)
